@@ -119,8 +119,13 @@ def run(ctx):
         ifs = [n for n in H.walk(lp["body"]) if H.kind(n) == "If"]
         rets = [n for n in H.walk(lp["body"]) if H.kind(n) == "Ret"]
 
+        lets_lp = {n["pat"]["name"]: n["init"] for n in H.walk(lp["body"]) if H.kind(n) == "Let" and H.kind(n.get("pat")) == "Bind" and n.get("init") is not None}
+
         def cond_is_as_bool(c, negated):
             c = H.strip(c)
+            # `let keep = result.as_bool()?; if keep { .. }`
+            if H.path_local(c) in lets_lp and H.path_local(c) not in res:
+                c = H.strip(lets_lp[H.path_local(c)])
             if negated:
                 if H.kind(c) == "Unary" and c["op"] == "Not":
                     c = H.strip(c["e"])
@@ -138,11 +143,19 @@ def run(ctx):
             ok = len(pushes) == 1 and H.path_local(pushes[0]["args"][0]) in res and not any(any(p is x for x in H.walk(i["then"])) for i in ifs for p in pushes)
             return ok, "pushes the callback result unconditionally: %s" % ok
         if kind == "keep":
-            ok = len(pushes) == 1 and H.path_local(pushes[0]["args"][0]) not in res
+            if len(pushes) != 1:
+                return None, "expected one push in the element loop, found %d" % len(pushes)
+            if H.path_local(pushes[0]["args"][0]) in res:
+                return False, "keeps the callback's result instead of the item"
             guard = [i for i in ifs if any(p is x for x in H.walk(i["then"]) for p in pushes)]
-            ok = ok and len(guard) == 1 and cond_is_as_bool(guard[0]["cond"], False)
+            if len(guard) != 1:
+                return (False, "the item is pushed unconditionally") if not guard and not any(H.kind(x) in ("Match", "Continue") for x in H.walk(lp["body"])) else (None, "the test that guards the push was not recognised")
+            if cond_is_as_bool(guard[0]["cond"], False):
+                return True, "pushes the item under `if as_bool(result)`: True"
+            if cond_is_as_bool(guard[0]["cond"], True):
+                return False, "keeps the item when the predicate answers false"
             # the pushed item is the element handed to the callback
-            return ok, "pushes the item under `if as_bool(result)`: %s" % ok
+            return None, "the condition that guards the push is not `as_bool(result)` in a recognised spelling"
         if kind in ("every", "some"):
             neg = kind == "every"
             guard = [i for i in ifs if any(H.kind(x) == "Ret" for x in H.walk(i["then"]))]
